@@ -52,10 +52,14 @@ def sig(b):
         s["submeshes"] = shape.get("submeshes", 0) > 0
         s["batches"] = shape.get("batches", 0) > 0
         s["indices_le4"] = shape.get("indices", 0) <= 4
+        if rec.get("ev") == "Convert":
+            s["to_old"] = rec.get("to") in ("Vanilla", "TBC", "WotLK")
     else:
         s["nsec"] = shape.get("nsec")
         s["nbones"] = shape.get("nbones")
         s["data"] = shape.get("data")
+        if rec.get("ev") == "Convert":
+            s["to_legacy"] = rec.get("to") == "MoP"
     if rec.get("note") and (conj.endswith("-res")):
         s["note"] = rec.get("note")
     return s
